@@ -19,9 +19,9 @@ from mc import core
 ID = "C17"
 LEVEL = "model_checking"
 RULE = ("parameter sets: for each of the 8 operations every boolean flag setting x every optional parameter present/absent "
-        "(45 sets); tables: every table of 1-3 rows over trial_type in {a,b,n/a} x code in {1,2} x response_time in "
+        "(47 sets); tables: every table of 1-3 rows over trial_type in {a,b,n/a} x code in {1,2} x response_time in "
         "{0.3,n/a} with fixed increasing onsets and durations in {0.5,n/a}; operation lists: all single operations and all "
-        "ordered pairs (thorough: triples over a 12-set subset); dispatcher histories: every sequence of <= 3 tables from 3 "
+        "ordered pairs (thorough: triples over a 12-set subset); dispatcher histories: every sequence of <= 3 tables from 4 (one with an extra column) "
         "through one dispatcher.  state = (operation list, table); transition = one run_operations call; non-trivial = the "
         "reference result differs from the input table")
 ASSUMPTIONS = [
@@ -294,6 +294,10 @@ def parameter_sets():
         out.append(op("remap_columns", source_columns=["trial_type", "code"], destination_columns=["kind", "level"],
                       map_list=[["a", 1, "first", "low"], ["b", 2, "second", "high"], ["a", 2, "first", "high"]],
                       ignore_missing=ig, integer_sources=["code"]))
+        # a key listed twice (with different destinations; the key itself occurs in no table, so which of the two entries
+        # wins is never asked) must not disturb the entries listed after it
+        out.append(op("remap_columns", source_columns=["trial_type"], destination_columns=["kind"],
+                      map_list=[["c", "x1"], ["c", "x2"], ["a", "first"], ["b", "second"]], ignore_missing=ig))
     for sd in B:
         for ig in B:
             out.append(op("merge_consecutive", column_name="trial_type", event_code="a", set_durations=sd,
@@ -473,9 +477,12 @@ def worker_histories(rec, shard, nshards, scratch, thorough, seed):
     psets = parameter_sets()
     t3 = tables(3, False)
     tabs = [t3[5], t3[len(t3) // 2], t3[-7]]
+    # a table with one more column than the others (state kept from one table must not leak its column set into the next)
+    c0, r0 = tabs[0]
+    tabs.append((c0 + ["note"], [dict(r, note="n%d" % i) for i, r in enumerate(r0)]))
     seqs = []
     for n in (1, 2, 3):
-        seqs += list(itertools.product(range(3), repeat=n))
+        seqs += list(itertools.product(range(len(tabs)), repeat=n))
     for pi in core.shard_order(len(psets), shard, nshards, seed):
         o = psets[pi]
         fresh = {}
